@@ -1640,11 +1640,11 @@ pub mod c15_validated {
         match t[1] {
             "dzkp" => {
                 let v = mal.set_total_records(n).dzkp_validator(TEST_DZKP_STEPS, rpb);
-                fmt(guarded(|| block_on_timeout(3, v.validated_seq_join(tasks(n, &script)).try_collect::<Vec<usize>>())))
+                fmt(guarded(|| block_on_timeout(8, v.validated_seq_join(tasks(n, &script)).try_collect::<Vec<usize>>())))
             }
             "sh" => {
                 let v = sh.set_total_records(n).dzkp_validator(TEST_DZKP_STEPS, rpb);
-                fmt(guarded(|| block_on_timeout(3, v.validated_seq_join(tasks(n, &script)).try_collect::<Vec<usize>>())))
+                fmt(guarded(|| block_on_timeout(8, v.validated_seq_join(tasks(n, &script)).try_collect::<Vec<usize>>())))
             }
             k => panic!("harness: unknown validator kind {k}"),
         }
